@@ -96,8 +96,16 @@ class FGen:
     def __call__(self):
         if self.left <= 0:
             return None
-        self.left -= 1
         w, r = self.w, self.r
+        if r.random() < self.cfg.get("edit_rate", 0.0):
+            # an edit between two queries: an element gets a new name or identifier (a value another element
+            # has, had, or a fresh one); what was indexed for the old value must not answer any more
+            c = [h for h in w.order if kind_of(w.handles[h]) in ("library", "definition", "instance", "port", "cable")]
+            if c:
+                self.fresh = getattr(self, "fresh", 0) + 1
+                v = r.choice(NAME_POOL + NAME_POOL + ["Fresh%d" % self.fresh, "fresh%d" % self.fresh])
+                return {"op": "data_set", "on": r.choice(c), "key": r.choice([".NAME", "EDIF.identifier", "EDIF.identifier"]), "v": v}
+        self.left -= 1
         name = r.choice(sorted(SPECS))
         fn, haspat, haskey, sels, hasrec = SPECS[name]
         x = r.random()
@@ -178,6 +186,7 @@ class C13(Prop):
         cfg["policy_start"] = rng.choice(["DEFAULT", "DEFAULT", "EDIF"])
         cfg["n_queries"] = rng.choice([20, 40, 60])
         cfg["cache_toggle"] = rng.random() < 0.7
+        cfg["edit_rate"] = rng.choice([0.0, 0.0, 0.1, 0.3])
         return cfg
 
     def make_gen(self, w, rng, cfg):
